@@ -128,6 +128,7 @@ func Note(v interface{})               {}
 func Sample(key string, v interface{}) {}
 func Concretize(x int) int             { return x }
 func SetUnwind(n int)                  {}
+func UnwindIsViolation(id string)      {}
 
 // Stop records a failed assertion with the given id text and ends the current path.
 func Stop(msg string) { Failures = append(Failures, msg); panic("verifmodel.Stop: " + msg) }
